@@ -448,8 +448,8 @@ func init() {
 		New:          func() any { return &C14Case{} },
 		Check:        func(c any) Result { return checkC14(c.(*C14Case)) },
 		Quick:        1200,
-		Thorough:     6000,
+		Thorough:     40000,
 		RaceQuick:    150,
-		RaceThorough: 1500,
+		RaceThorough: 6000,
 	})
 }
